@@ -1274,6 +1274,14 @@ class ClientObservation:
                 stacklevel=2,
             )
         if self.cancelled:
+            if (
+                self._latest_response is not None
+                and self._cancellation_reason is not None
+            ):
+                # Ended by the peer or the transport before anybody listened:
+                # the last item (typically the final response) is still handed
+                # over, ahead of the end that register_errback will report
+                callback(self._latest_response)
             return
 
         self.callbacks.append(callback)
